@@ -14,11 +14,12 @@ def contracts():
         // certificate settings, the account file the account name
         r matches Ok(t) ==> t.2@ == file_path_spec(*fm, file_type) && t.0@ == file_dir_spec(*fm, file_type)
                 && t.1@ == file_name_spec(*fm, file_type), //@C02.each_file_type_has_its_own_path,C03.each_file_type_has_its_own_path,C13.each_file_type_has_its_own_path
+        (r is Ok) == path_ok(*fm, file_type),
 """, rewrites=[("T-FMT", r"format!\(\s*\"\{account\}\.\{file_type\}\.\{ext\}\",\s*account = (?P<a>[^,]+),\s*file_type = (?P<b>\w+),\s*ext = (?P<c>\w+),?\s*\)",
                 lambda m: f"dot3(&{m.group('a').strip()}, &{m.group('b')}, &{m.group('c')})")],
 )
     c["get_file_path"] = FnSpec(ret="r", sig="""
-    ensures r matches Ok(p) ==> p@ == file_path_spec(*fm, file_type),
+    ensures r matches Ok(p) ==> p@ == file_path_spec(*fm, file_type), (r is Ok) == path_ok(*fm, file_type),
 """)
     c["read_file"] = FnSpec(ret="r", ghost=True, sig="""
     ensures *final(w) == *old(w),
@@ -78,7 +79,7 @@ def contracts():
     c["get_keypair"] = FnSpec(ret="r", ghost=True, sig="""
     ensures *final(w) == *old(w),
         r matches Ok(k) ==> old(w).fs.files.contains_key(file_path_spec(*fm, FileType::PrivateKey))
-            && crate::acme_common::crypto::pem_key(old(w).fs.files[file_path_spec(*fm, FileType::PrivateKey)]) == Some(k), //@C01.key_read_from_key_file
+            && crate::acme_common::crypto::pem_key(old(w).fs.files[file_path_spec(*fm, FileType::PrivateKey)]) == Some(k), //@C01.key_read_from_key_file,C02.key_of_the_csr_is_read_from_the_key_file,C03.key_of_the_csr_is_read_from_the_key_file
 """)
     c["get_certificate"] = FnSpec(ret="r", ghost=True, sig="""
     ensures *final(w) == *old(w),
@@ -94,21 +95,23 @@ def contracts():
 """)
     c["check_files"] = FnSpec(ret="r", ghost=True, sig="""
     ensures *final(w) == *old(w),
-        r ==> forall|i: int| 0 <= i < file_types@.len() ==> old(w).fs.files.contains_key(file_path_spec(*fm, #[trigger] file_types@[i])), //@C06.files_exist_sound
+        // exactly: every listed file has a path and is there (a missing one means "request now", all present means "look at the certificate")
+        r == (forall|i: int| 0 <= i < file_types@.len() ==> path_ok(*fm, #[trigger] file_types@[i])
+                && old(w).fs.files.contains_key(file_path_spec(*fm, file_types@[i]))), //@C06.files_exist_exactly
 """, loops={1: """
     invariant *w == *old(w),
-        forall|i: int| 0 <= i < it.index@ ==> old(w).fs.files.contains_key(file_path_spec(*fm, #[trigger] file_types@[i])),
+        forall|i: int| 0 <= i < it.index@ ==> path_ok(*fm, #[trigger] file_types@[i]) && old(w).fs.files.contains_key(file_path_spec(*fm, file_types@[i])),
 """}, rewrites=[("T-ITER", r"for (?P<x>\w+) in (?P<v>[\w\.]+)\.iter\(\)\.cloned\(\)", r"for \g<x>__ in it: \g<v>.iter()")],
         at=[("loop_start", None, 1, "let t = t__.clone();", "T-ITER")])
     c["certificate_files_exists"] = FnSpec(ret="r", ghost=True, sig="""
     ensures *final(w) == *old(w),
-        r ==> old(w).fs.files.contains_key(file_path_spec(*fm, FileType::PrivateKey))
-            && old(w).fs.files.contains_key(file_path_spec(*fm, FileType::Certificate)), //@C06.files_exist_sound
-""", at=[("before_stmt", "check_files(", 1, "proof { assert(file_types@[0] is PrivateKey && file_types@[1] is Certificate); }")])
+        r == (path_ok(*fm, FileType::PrivateKey) && old(w).fs.files.contains_key(file_path_spec(*fm, FileType::PrivateKey))
+            && path_ok(*fm, FileType::Certificate) && old(w).fs.files.contains_key(file_path_spec(*fm, FileType::Certificate))), //@C06.files_exist_exactly
+""", at=[("before_stmt", "check_files(", 1, "proof { assert(file_types@[0] is PrivateKey && file_types@[1] is Certificate && file_types@.len() == 2); }")])
     c["account_files_exists"] = FnSpec(ret="r", ghost=True, sig="""
     ensures *final(w) == *old(w),
-        r ==> old(w).fs.files.contains_key(file_path_spec(*fm, FileType::Account)),
-""", at=[("before_stmt", "check_files(", 1, "proof { assert(file_types@[0] is Account); }")])
+        r == old(w).fs.files.contains_key(file_path_spec(*fm, FileType::Account)), //@C11.account_file_presence_is_exact
+""", at=[("before_stmt", "check_files(", 1, "proof { assert(file_types@[0] is Account && file_types@.len() == 1); }")])
     return c
 
 
@@ -116,6 +119,7 @@ def build():
     u = Unit("storage", "acmed")
     u.prelude("err", "log", "stdx", "time", "world", "fs")
     u.ghost_call("is_file", method=True)
+    u.ghost_call("symlink_metadata", method=True)
     for f in ["metadata", "try_exists", "read", "write", "rename", "remove_file"]:
         u.ghost_call(f, quals=("fs",))
     u.ghost_call("flush", method=True)
@@ -150,7 +154,7 @@ def build():
     u.verify(S, "get_file_full_path", "storage", props=["C02", "C03", "C13"], fns={"get_file_full_path": c["get_file_full_path"]})
     for name, props in [("get_file_path", ["C02"]), ("read_file", ["C02"]), ("set_owner", ["C13"]),
                         ("write_file", ["C02", "C13", "C10", "C03", "C07"]), ("get_account_data", ["C11"]),
-                        ("set_account_data", ["C02", "C13", "C11"]), ("get_keypair_path", ["C02"]), ("get_keypair", ["C01"]),
+                        ("set_account_data", ["C02", "C13", "C11"]), ("get_keypair_path", ["C02"]), ("get_keypair", ["C01", "C02", "C03"]),
                         ("set_keypair", ["C02", "C13", "C03", "C07"]), ("get_certificate_path", ["C02"]), ("get_certificate", ["C06"]),
                         ("write_certificate", ["C02", "C13", "C03", "C07"]), ("check_files", ["C06"]),
                         ("account_files_exists", ["C11"]), ("certificate_files_exists", ["C06"])]:
@@ -231,6 +235,11 @@ pub open spec fn ext_spec(fm: FileManager, t: FileType) -> Seq<char> {
 }
 pub open spec fn type_text(t: FileType) -> Seq<char> { match t { FileType::Account => "account"@, FileType::PrivateKey => "pk"@, FileType::Certificate => "crt"@ } }
 pub uninterp spec fn b64_text(s: Seq<char>) -> Seq<char>;
+// whether the file-name template renders for these values (minijinja: a function of template and data)
+pub uninterp spec fn name_renders(fmt: Seq<char>, key_type: Seq<char>, ext: Seq<char>, file_type: Seq<char>, name: Seq<char>) -> bool;
+pub open spec fn path_ok(fm: FileManager, t: FileType) -> bool {
+    t is Account || name_renders(fm.crt_name_format@, fm.crt_key_type@, ext_spec(fm, t), type_text(t), fm.crt_name@)
+}
 pub uninterp spec fn render_name(fmt: Seq<char>, key_type: Seq<char>, ext: Seq<char>, file_type: Seq<char>, name: Seq<char>) -> Seq<char>;
 pub open spec fn file_dir_spec(fm: FileManager, t: FileType) -> Seq<char> { match t { FileType::Account => fm.account_directory@, _ => fm.crt_directory@ } }
 pub open spec fn file_name_spec(fm: FileManager, t: FileType) -> Seq<char> {
@@ -249,7 +258,8 @@ impl FileType {
 }
 #[verifier::external_body]
 pub fn render_template(t: &String, d: &CertFileFormat) -> (r: Result<String, Error>)
-    ensures r matches Ok(s) ==> s@ == render_name(t@, d.key_type@, d.ext@, d.file_type@, d.name@) { unimplemented!() }
+    ensures r matches Ok(s) ==> s@ == render_name(t@, d.key_type@, d.ext@, d.file_type@, d.name@),
+        (r is Ok) == name_renders(t@, d.key_type@, d.ext@, d.file_type@, d.name@) { unimplemented!() }
 // format!("{account}.{file_type}.{ext}", ..)  (rule T-FMT)
 #[verifier::external_body]
 pub fn dot3(a: &String, b: &FileType, c: &String) -> (r: String) ensures r@ == a@ + "."@ + type_text(*b) + "."@ + c@ { unimplemented!() }
